@@ -39,7 +39,7 @@ func loadFlowRef() (*flowRef, error) {
 type srcFacts struct {
 	src      *flowSource
 	facts    map[string]flabel
-	sites    map[string]map[string]bool // kind -> sink site identities reached locally
+	sites    map[string]map[string]siteCnt // kind -> local site -> call paths to sinks
 	children []*srcFacts                // same-package call sites receiving the escaping value
 }
 
@@ -286,7 +286,7 @@ func aggregate(srcs map[string][]*srcFacts) (map[string]*fset, map[string][]*src
 var fnSitePos = map[string]token.Pos{}
 
 func fnSites(srcs map[string][]*srcFacts) map[string]map[string]int {
-	type acc map[string]map[string]bool
+	type acc map[string]map[string]siteCnt
 	per := map[*ssa.Function]acc{}
 	var collect func(a acc, sf *srcFacts, depth int, seen map[*srcFacts]bool)
 	collect = func(a acc, sf *srcFacts, depth int, seen map[*srcFacts]bool) {
@@ -296,10 +296,12 @@ func fnSites(srcs map[string][]*srcFacts) map[string]map[string]int {
 		seen[sf] = true
 		for k, m := range sf.sites {
 			if a[k] == nil {
-				a[k] = map[string]bool{}
+				a[k] = map[string]siteCnt{}
 			}
-			for s := range m {
-				a[k][s] = true
+			for s, c := range m {
+				if c.all > a[k][s].all {
+					a[k][s] = c
+				}
 			}
 		}
 		for _, c := range sf.children {
@@ -329,7 +331,7 @@ func fnSites(srcs map[string][]*srcFacts) map[string]map[string]int {
 		}
 		cur := map[string]int{}
 		for kind, m := range a {
-			cur[kind] = len(m)
+			cur[kind] = siteTotals(m).all
 		}
 		if old, ok := out[k]; ok {
 			for kind, n := range old {
